@@ -32,6 +32,13 @@ ASSUMPTIONS = ['products of two neighbouring core scales stay above the document
 
 def build(c, seed):
     pat = c['pat']
+    if pat == 'illc':          # every slice nearly the same vector: unfoldings ill-conditioned from both sides (cond ~ 1e7)
+        base = space.tt(c['shape'], c['ranks'], 'gen', seed, tag=4)
+        Y = []
+        for G in base:
+            v = G[:1, :, :1] * 0 + np.linspace(1.0, 2.0, G.shape[1]).reshape(1, -1, 1)
+            Y.append(v + 1e-7 * G)
+        return Y
     if pat == 'zslice':
         Y = space.tt(c['shape'], c['ranks'], 'gen', seed, tag=4)
         k = min(1, len(Y) - 1)
@@ -252,7 +259,47 @@ def check_graph(c):
     return res
 
 
-CHECKERS = {'pivots': check_pivots, 'graph': check_graph}
+def check_shared(c):
+    """The same ndarray object at several positions of the list (a periodic train), Fortran-ordered or C-ordered:
+    an in-place single step may replace slots i and its neighbour but must not touch the shared object itself."""
+    res = Res()
+    seed = c.get('seed', 0)
+    r, n, dd = c['r'], c['n'], c['d']
+    Gm = space.core('gen', r, n, r, 1, seed, tag=44)
+    A0 = space.core('gen', 1, n, r, 0, seed, tag=44)
+    B0 = space.core('gen', r, n, 1, 2, seed, tag=44)
+    for order in ('F', 'C'):
+        for side in ('L', 'R'):
+            for i in (range(0, dd - 1) if side == 'L' else range(1, dd)):
+                for inplace in (True, False):
+                    res.ev()
+                    G = np.array(Gm, order=order)
+                    Y = [np.array(A0, order=order)] + [G] * (dd - 2) + [np.array(B0, order=order)]
+                    D = ref.dense(Y)
+                    gb = G.tobytes()
+                    case = dict(c, order=order, move=[side, i], inplace=inplace)
+                    Z = _step(Y, (side, i), inplace)
+                    res.tr()
+                    res.check(G.tobytes() == gb, 'shared.object_untouched', case,
+                              'a core object shared by several positions was modified by a single step', ['shared'])
+                    dev = float(np.linalg.norm(ref.dense(Z) - D)) / float(np.linalg.norm(D))
+                    res.check(dev <= 1e-11, 'shared.same', case, lambda: 'tensor changed by relative %.3e' % dev, ['shared', 'same'])
+                    res.state(digest(ref.core_bytes(Z)))
+                    res.nt((r, n, dd, order, side, i, inplace))
+            for k in range(dd):
+                res.ev()
+                G = np.array(Gm, order=order)
+                Y = [np.array(A0, order=order)] + [G] * (dd - 2) + [np.array(B0, order=order)]
+                D = ref.dense(Y)
+                gb = G.tobytes()
+                W = teneva.orthogonalize(Y, k)
+                dev = float(np.linalg.norm(ref.dense(W) - D)) / float(np.linalg.norm(D))
+                res.check(G.tobytes() == gb and dev <= 1e-11, 'shared.orthogonalize', dict(c, order=order, k=k),
+                          lambda: 'orthogonalize on a periodic train: shared core modified or tensor changed (%.3e)' % dev, ['shared'])
+    return res
+
+
+CHECKERS = {'pivots': check_pivots, 'graph': check_graph, 'shared': check_shared}
 
 
 def _leaves(tier, seed):
@@ -273,7 +320,10 @@ def _leaves(tier, seed):
                     if scales is not None and abs(sum(scales)) <= 900 and (tier != 'quick' or d <= 3):
                         out.append(dict(shape=sh, ranks=rk, pat='gen', scales=scales, seed=seed))
     for sh, rk in (([2, 150], [1, 2, 1]), ([150, 2], [1, 3, 1]), ([3, 40, 2], [1, 3, 2, 1]), ([2] * 8, [1, 2, 3, 4, 4, 3, 2, 2, 1]), ([1, 60, 1], [1, 4, 4, 1])):
-        for pat in ('gen', 'dup', 'zslice'):
+        for pat in ('gen', 'dup', 'zslice', 'illc'):
+            out.append(dict(shape=sh, ranks=rk, pat=pat, seed=seed))
+    for sh, rk in (([3, 80, 2], [1, 3, 2, 1]), ([2, 100, 3], [1, 2, 3, 1]), ([3, 3, 3], [1, 3, 3, 1]), ([2, 3, 2], [1, 2, 2, 1])):
+        for pat in ('illc', 'gen'):
             out.append(dict(shape=sh, ranks=rk, pat=pat, seed=seed))
     return out
 
@@ -284,4 +334,6 @@ def strata(tier, seed):
     gl = [dict(l, depth=(3 if tier == 'quick' else (4 if len(l['shape']) <= 3 else 3))) for l in ls
           if not l.get('scales') and l['pat'] in ('gen', 'dup', 'intA') and max(l['shape']) <= 4 and len(l['shape']) <= 4
           and (tier != 'quick' or max(l['ranks']) <= 2 or len(l['shape']) == 2)]
+    sh = [dict(r=r, n=n, d=dd, seed=seed) for r in (1, 2, 3) for n in (2, 3) for dd in (3, 4, 5)]
+    yield Stratum('periodic trains with a shared core object', sh, 'shared', size=len(sh), chunk=2, bounds={'orders': ['F', 'C']})
     yield Stratum('single-step graph', gl, 'graph', size=len(gl), chunk=4, bounds={'depth': sorted({g['depth'] for g in gl})})
